@@ -45,7 +45,7 @@ func TestMain(m *testing.M) {
 		return
 	}
 	run = vk.Start("C15", "exploration")
-	run.Rule("for each of N seeded authentic CoA/Disconnect requests (both codes, 0-12 attributes, own secret of 1-64 octets incl. non-ASCII/NUL, own listener process): the request itself; every single-bit flip of its first 64 octets; every single-octet substitution beyond; the length field set to every value 0..len+4 and far values; truncation at every octet; length field shortened and re-signed (authentic prefix + unauthenticated tail); padding beyond L incl. forged attributes and >4096 octets; the request signed with 10+ other secrets (near misses); classic wrong authenticators; authentic packets with 16 other codes; authentic requests with broken attribute regions; 40 random datagrams. Every datagram goes over loopback UDP to the real listener started by CoAServer.Start. non-trivial = distinct (secret, datagram) that passes the size checks (len >= 20 and 20 <= L <= len), so that whether it is acted on is decided by the MD5 comparison or later")
+	run.Rule("for each of N seeded authentic CoA/Disconnect requests (both codes, 0-12 attributes, own secret of 1-64 octets incl. non-ASCII/NUL and leading/trailing white space, own listener process; every third listener runs the real CoAProcessor of coa_handler.go as its handler): the request itself; every single-bit flip of its first 64 octets; every single-octet substitution beyond; the length field set to every value 0..len+4 and far values; truncation at every octet; datagrams shorter than 20 octets with a consistent length field; length field shortened and re-signed (authentic prefix + unauthenticated tail); padding beyond L incl. forged attributes and >4096 octets; the request signed with 13+ other secrets (prefixes, extensions, one-bit neighbours, empty); classic wrong authenticators; authentic packets with 16 other codes; authentic requests with broken attribute regions; 40 random datagrams. Every datagram goes over loopback UDP to the real listener started by CoAServer.Start. non-trivial = distinct (secret, datagram) that passes the size checks (len >= 20 and 20 <= L <= len), so that whether it is acted on is decided by the MD5 comparison or later")
 	run.Assume("the listener handles datagrams one at a time in arrival order (true of receiveLoop); a datagram for which sendto(2) on loopback has returned is in the listener's socket queue")
 	run.Assume("octets beyond the RADIUS length field are padding (RFC 2865 s.3); authentic packets with other codes / unparsable attributes may be dropped or NAKed but must not reach a handler; zero-length attribute values and a single stray trailing octet are accepted either way; authentic packets with L > 4096 are not required to be acted on")
 	run.Assume("exact duplicates of an authentic request are never sent (a duplicate-suppressing listener would be correct)")
@@ -182,19 +182,22 @@ func (s *srvProc) take() []event {
 // ---------------------------------------------------------------- worker
 
 type worker struct {
-	id      int
-	sock    *net.UDPConn
-	buf     []byte
-	rng     *rand.Rand // fence tokens only
-	srv     *srvProc
-	mode    string
-	secret  []byte
-	vseed   uint64
-	fenceN  int
-	t       *testing.T
-	local   map[string]int // counters flushed per base
-	crashed map[string]int // input class -> confirmed listener deaths for the current base request
-	stopped bool
+	id       int
+	sock     *net.UDPConn
+	buf      []byte
+	rng      *rand.Rand // fence tokens only
+	srv      *srvProc
+	mode     string
+	secret   []byte
+	vseed    uint64
+	fenceN   int
+	fenceID  byte
+	fenceSeq [256]int
+	t        *testing.T
+	local    map[string]int // counters flushed per base
+	crashed  map[string]int // input class -> confirmed listener deaths for the current base request
+	deaf     int            // exchanges of the current base request in which the probe went unanswered
+	stopped  bool
 }
 
 var (
@@ -262,18 +265,39 @@ type fence struct {
 	token string // hex of the User-Name value
 }
 
-func (w *worker) newFence(avoidID int) *fence {
+// newFence builds the next probe. Probe identifiers roll through 0..255 (skipping the identifiers in avoid), so a probe
+// never shares its identifier with any of the previous ~200 probes: a late or duplicated reply to an earlier probe
+// cannot be mistaken for the reply to the current one.
+func (w *worker) newFence(avoid map[byte]bool) *fence {
 	w.fenceN++
 	tok := []byte(fmt.Sprintf("VERIF-C15-FENCE-%d-%016x", w.fenceN, w.rng.Uint64()))
-	id := byte(w.rng.IntN(256))
-	if int(id) == avoidID {
-		id++
+	w.fenceID++
+	for avoid[w.fenceID] {
+		w.fenceID++
 	}
+	id := w.fenceID
+	w.fenceSeq[id] = w.fenceN
 	code := byte(43)
 	if w.fenceN%2 == 0 {
 		code = 40
 	}
 	return &fence{d: build(code, id, attrTLV(1, tok), w.secret), token: hex.EncodeToString(tok)}
+}
+
+// strayProbeReply: p answers one of the last 64 probes other than cur (only a listener that answers a request more
+// than once, or late, produces such a datagram).
+func (w *worker) strayProbeReply(p []byte, cur *fence) bool {
+	if len(p) < 20 || !(p[0] == 41 || p[0] == 42 || p[0] == 44 || p[0] == 45) || (cur != nil && p[1] == cur.d[1]) {
+		return false
+	}
+	seq := w.fenceSeq[p[1]]
+	return seq > 0 && w.fenceN-seq < 64
+}
+
+func (w *worker) reportStray(p []byte) {
+	run.Violation(compLoop, "if-authentic/response-once", "several-responses/extra-reply-to-probe",
+		"a datagram carrying the identifier of an earlier probe request arrived after that probe had been answered (a request answered more than once, or late)",
+		map[string]any{"secret_hex": hx(w.secret), "stray_datagram_hex": capHex(p), "handler_mode": w.mode})
 }
 
 func (f *fence) isReply(p []byte) bool {
@@ -302,9 +326,9 @@ func (w *worker) exchange(d []byte, withFence bool) (o *outcome, fo *outcome, f 
 		return o, nil, nil
 	}
 	w.count("datagrams_sent", 1)
-	avoid := -1
+	avoid := map[byte]bool{}
 	if len(d) >= 2 {
-		avoid = int(d[1])
+		avoid[d[1]] = true
 	}
 	if withFence {
 		f = w.newFence(avoid)
@@ -323,6 +347,8 @@ wait:
 			fo.resps = append(fo.resps, p)
 			answered = true
 			break wait
+		case ok && w.strayProbeReply(p, f) && !(len(d) >= 2 && p[1] == d[1]):
+			w.reportStray(p)
 		case ok:
 			got = append(got, p)
 		case s.poll():
@@ -344,7 +370,13 @@ wait:
 		if len(late) > 0 {
 			w.count("datagrams_after_fence_reply", len(late))
 		}
-		got = append(got, late...)
+		for _, p := range late {
+			if (f.isReply(p) || w.strayProbeReply(p, f)) && !(len(d) >= 2 && p[1] == d[1]) {
+				w.reportStray(p) // a second reply to this probe, or to an earlier one
+				continue
+			}
+			got = append(got, p)
+		}
 		s.ask("E")
 	} else {
 		for _, p := range late {
@@ -449,8 +481,15 @@ func (w *worker) runCase(tc *tcase) {
 		return
 	}
 	if o.settled == "quiescent" {
-		if deafEvents.Add(1) >= 12 {
-			abortAll.Store(true)
+		// an authentic probe went unanswered although the listener is alive and idle: each such exchange costs the
+		// full fence wait, so this base request is abandoned after three of them and the run after eight such bases
+		w.count("exchanges_settled_by_quiescence_probe_unanswered", 1)
+		if w.deaf++; w.deaf >= 3 && !w.stopped {
+			w.stopped = true
+			w.count("base_requests_abandoned_probe_unanswered", 1)
+			if deafEvents.Add(1) >= 8 {
+				abortAll.Store(true)
+			}
 		}
 	}
 
@@ -571,14 +610,18 @@ func (w *worker) runBatch(all []*tcase) {
 	s := w.srv
 	fences := make([]*fence, len(cs))
 	tokIdx := map[string]int{}
-	sendOK := true
-	for i, tc := range cs {
-		avoid := -1
+	avoid := map[byte]bool{}
+	for _, tc := range cs {
 		if len(tc.d) >= 2 {
-			avoid = int(tc.d[1])
+			avoid[tc.d[1]] = true
 		}
+	}
+	for i := range cs {
 		fences[i] = w.newFence(avoid)
 		tokIdx[fences[i].token] = i
+	}
+	sendOK := true
+	for i, tc := range cs {
 		if _, err := w.sock.WriteToUDP(tc.d, s.addr); err != nil {
 			sendOK = false
 			break
@@ -598,10 +641,13 @@ func (w *worker) runBatch(all []*tcase) {
 	for sendOK && cur < len(cs) {
 		p, ok := w.recv(20 * time.Millisecond)
 		if ok {
-			if fences[cur].isReply(p) {
+			switch {
+			case fences[cur].isReply(p):
 				fouts[cur].resps = append(fouts[cur].resps, p)
 				cur++
-			} else {
+			case w.strayProbeReply(p, fences[cur]) && !(len(cs[cur].d) >= 2 && p[1] == cs[cur].d[1]):
+				w.reportStray(p)
+			default:
 				outs[cur].resps = append(outs[cur].resps, p)
 			}
 			last = time.Now()
@@ -678,9 +724,6 @@ func safeRA(d []byte) []byte {
 
 func TestMutationsOfSignedRequests(t *testing.T) {
 	nbase := run.Pick(50, 2000)
-	if v, err := strconv.Atoi(os.Getenv("VERIF_C15_NBASE")); err == nil && v > 0 {
-		nbase = v // debugging aid only
-	}
 	nw := runtime.NumCPU() / 2
 	if nw > 8 {
 		nw = 8
@@ -734,6 +777,7 @@ func TestMutationsOfSignedRequests(t *testing.T) {
 				w.count("listeners_mode_"+w.mode, 1)
 				w.stopped = false
 				w.crashed = map[string]int{}
+				w.deaf = 0
 				var batch []*tcase
 				casesFor(r, b, w.secret, run.Thorough(), func(tc *tcase) {
 					if w.stopped || abortAll.Load() {
@@ -755,7 +799,7 @@ func TestMutationsOfSignedRequests(t *testing.T) {
 	wg.Wait()
 	run.Count("listener_processes_spawned", int(atomic.LoadInt64(&spawned)))
 	if abortAll.Load() {
-		run.Inconclusive("workload", "stopped early: the listener repeatedly left authentic probe requests unanswered (each such exchange is reported; continuing would only repeat it)")
+		run.Inconclusive("workload", "stopped early: the listeners of eight base requests left authentic probe requests unanswered (each such exchange is reported; continuing would only repeat it)")
 	}
 	run.Extra("workers", nw)
 	run.Extra("base_requests_planned", nbase)
